@@ -87,7 +87,7 @@ def Lst.spec (l : Lst) : Op → Option Exc
   | .rem v => (searchExc l.ty l.items v).or (if v ∈ l.items then none else some .ValueError)
   | .push v => elemExc l.ty v
   | .append v => elemExc l.ty v
-  | .pushAt v k => (elemExc l.ty v).or (lstPushIdxExc l.items.length k)     -- the element is looked at first
+  | .pushAt v k => (lstPushIdxExc l.items.length k).or (elemExc l.ty v)     -- the position is validated first (fix 4077d96)
   | .pop => if l.items.length = 0 then some .IndexOutOfBoundsError else none
   | .popAt k => idxExc l.items.length k
   | .resize _ => none
